@@ -19,6 +19,16 @@ EXTRA = {
   text="neat.Options loading is specified on token lists <<key, literal>> with the numeric meaning of every literal as an exact rational / integer table: the plain reader (tokens applied in order, later wins, unknown key is an error, a non-number silently becomes 0, integers with base prefixes), the YAML reader (duplicate key or wrong type is a decode error, unknown keys ignored, integral floats accepted), then for both the log level, the activator lines (default SigmoidSteepened 1.0; unknown name, unreadable probability or a line with fewer than two fields is an error) and Validate (executor, compatibility method, activators present, as many probabilities). TLC checks: both readers give the same result on every well-formed file without activator lines; a well-formed file loads iff log level, executor and compatibility method are among the documented strings (and every activator line parses); the plain reader is order-independent and last-wins; the YAML reader ignores unknown keys; only YAML can express activators; Validate fails in the documented order; the accepted enum strings are exactly the constants; FromContext returns the innermost options of a context stack; the file-name dispatch (suffix yml / yaml without a dot). Every case is rendered in two layouts per syntax (plain: single space + LF / padded + CRLF + no final line end; YAML: bare / commented, blank lines, quoted activator lines), read by the real readers, and every field of neat.Options, the kept raw activator lines, the process-wide log level afterwards and the error class are compared. The option files shipped in data/ must load, each field must equal the file's token, and xor_test.neat / xor_test.neat.yml must agree on every scalar field.",
   note="Exhaustive within: 5 (quick) / 16 (thorough) assignments of 9 float and 7 integer literals to the 32 numeric fields (chosen so that any two fields differ in some assignment) x 4 executor x 4 compatibility x 6 log-level strings incl. absent and unsupported ones; around one (two) base file(s): every single missing key, every single repeated key, an unknown key at 3 positions, non-numeric literals (abc, 1e3, 200.5) in one float and one integer field, reversed order, the empty file; activator lists of up to 3 (4) lines over 5 (7) line shapes; 144 Validate records; context stacks up to depth 3 (4); 10 file names x plain / YAML / missing content. The key -> field table of the replayer is written from the field documentation, independently of the reader's switch and of the yaml tags. Error classes are recognised by message fragments (a reworded message shows up as a mismatch to be looked at, exit 1). Literals are a fixed palette, not arbitrary decimal strings; strconv / yaml.v3 number parsing is trusted beyond it. OBSERVATION (outside the verdict): MC_Options_short generates node_activators entries with fewer than two fields, for which the specification asks for an error; the YAML reader as found panics there (`index out of range [1] with length 1` in initNodeActivators, neat/neat_options_readers.go; minimal input `node_activators:\n  - LinearActivation`); the replayer records this under coverage.options.observations and does not alarm on it; suggested fix: `if len(fields) < 2 { return errors.Errorf(...) }` after strings.Fields(line) - with it any error of the activator stage is accepted, and any other outcome than error-or-this-panic (e.g. silently loading) is a violation. Trusted: TLC, the renderers of the replayer.",
   technique=B2),
+ "X03": dict(
+  title="the sort orders of organisms, species and experiment records are strict weak orders and every sort / champion / maximum built on them gives what the order says",
+  text="The six Less relations (genetics.Organisms: fitness then highestFitness; byOrganismOrigFitness: original fitness of the first organism, the older species is less on ties; ByOrganismFitness: maximum computed by ComputeMaxAndAvgFitness; experiment.Generations / Trials / Experiments: most recent evaluation time then id), findChampion, FindChampion and ComputeMaxAndAvgFitness are specified as relations / folds over integers. TLC checks on every list in scope: irreflexive, asymmetric, transitive, incomparability transitive (strict weak order: what sort.Sort needs), the descending / ascending arrangement is sorted and a permutation, only equal elements are incomparable for the three lexicographic orders, the champion is maximal, the coded maximum (running maximum starting at 0) is the true maximum on non-negative fitness, FindChampion as coded (running best starting at -1) is the first maximal organism when every fitness exceeds -1, n*max >= sum. The replayer builds real Organisms / Species / Generations / Trials / Experiments, compares Less with the specification's matrix for every ordered pair, Swap, sorts fresh copies with sort.Sort(sort.Reverse(x)) (what every call site does), sort.Sort(x) and sort.Stable(sort.Reverse(x)) and compares the key sequence and the permutation property (pointer identity), runs the real findChampion (champion key, organisms left best-first), FindChampion (pointer of the expected position, no reordering), ComputeMaxAndAvgFitness (exact), RecentEpochEvalTime and MostRecentTrialEvalTime.",
+  note="Exhaustive within: organism lists up to 4 over fitness {0,1,2} x highestFitness {0,2} (quick) / {0,1,3} x {0,1,3} (thorough); species lists up to 3 (4) over original fitness x age {1,2,3}, each species built with a second organism whose values point the other way (only the first organism may count); species-maximum lists of up to 3 species with 0..2 organisms; stamped lists up to 3 (4) over time {zero,1,2} x id {0,1,2} replayed as Generations, as Trials (time = maximum over their generations) and as Experiments (maximum over trials, the most recent trial not the last). MC_Orders_negative adds fitness {-2,-1,0,1}: the verdict there is against the functions AS CODED; the two places where the code departs from the plain definition are recorded as OBSERVATIONS (coverage.orders.observations), not violations: ComputeMaxAndAvgFitness reports 0 as the maximum of a non-empty species whose organisms all have negative fitness, and FindChampion returns nil when every fitness is <= -1 (adjustFitness documents `Do not allow negative fitness`, so negative fitness is outside the documented domain of these functions). Not covered: NaN fitness (Less is not a strict weak order with NaN), species without organisms for byOrganismOrigFitness / findChampion (both index Organisms[0]: precondition). Needs the export shims of /repo/neat/genetics/verif_grow_on.go (build tag verif). Trusted: TLC, the standard library's sort given a strict weak order.",
+  technique=B2),
+ "X04": dict(
+  title="population statistics, champion selection and the remaining trial / experiment accessors equal their definitions",
+  text="Generation.FillPopulationStatistics is specified as the loop of the code (per species: sort best first under the Organisms order, take the first organism's fitness and genome complexity and the species age; champion = best organism of the first species whose best fitness is strictly greater than the running maximum; a generation that is already solved keeps its champion) next to its definition (first species holding an organism of maximal fitness); Generation.Average as exact sums over the species; Trial.AvgEpochDuration / Experiment.AvgTrialDuration / AvgEpochDuration with Go's truncating integer division and the EmptyDuration (-1) convention, including a trial without generations contributing -1 to the experiment's average as coded; Trial.BestOrganism and Experiment.BestOrganism for all champions and for solvers only (maximal key under the Organisms order, the set of generations / trials that may be reported, Flag = reported trial); champion accessors for generations without champion or species (0 / MaxInt); the remembered winner generation of WinnerStatistics; the exact ingredients of Experiment.EfficiencyScore. TLC checks: loop = definition, the champion is maximal, per-species fitness is the species maximum, every species is left best first, restricting to solvers cannot improve the best, found-flags, division brackets. Every case is built from real organisms (genome complexity tied to the organism key so that picking another organism shows) and every accessor compared.",
+  note="Exhaustive within: populations of up to 2 (thorough 3) species of 1..2 organisms over fitness {-1,0,2} x highestFitness {0,1}, solved flag both ways; trials of up to 2 (3) generations over solved x 4 champion keys x a bit that sets duration and species age (0 = champion without species); experiments of up to 2 trials x 2 generations (thorough 3 x 1). Integer-valued fields are compared exactly, means with 1e-12; the final float formula of EfficiencyScore (log) is composed by the replayer from the specification's exact ingredients and compared with 1e-9 relative tolerance, for MaxFitnessScore 0 and 4. C19 already covers the other accessors; X03 covers RecentEpochEvalTime / MostRecentTrialEvalTime. OBSERVATIONS recorded in coverage.popstats.observations, not violations: (1) MC_PopStats_nochamp puts generations WITHOUT a champion in scope: Trial.BestOrganism / Experiment.BestOrganism sort the champions without a nil check and panic (nil dereference in Organisms.Less; a single nil champion is returned as (nil, true)), EfficiencyScore panics when the winner generation has no champion - while ChampionsFitness / ChampionSpeciesAges / ChampionsComplexities / ChampionComplexity tolerate a nil champion; (2) EfficiencyScore is 0 for every experiment with a single trial (the means are only taken when len(Trials) > 1) and NaN (0/0) when several trials exist and none is solved; (3) genetics.Population.MeanFitness / Variance / StandardDev are never assigned anywhere in the library (dead fields: nothing to check). The running maximum of the champion selection starts at float64(math.MinInt64): fitness below -9.2e18 is outside the scope. Species without organisms are outside the scope (FillPopulationStatistics indexes Organisms[0]). Trusted: TLC, the replayer's construction of organisms / generations.",
+  technique=B2),
 }
 
 
@@ -86,3 +96,38 @@ def x02(ctx, replay):
                            expect_report=rep_file)
         ctx.add_report(rep, "options-shipped")
         ctx.extra["shipped"] = rep.get("extra")
+
+
+# ------------------------------------------------------------------------------------------------ X03
+@pipeline("X03")
+def x03(ctx, replay):
+    thorough = ctx.tier == "thorough"
+    ctx.rule = ("MC_Orders (+ MC_Orders_negative): every list of organisms / species / species-with-organisms / stamped "
+                "records in scope with the Less matrix, the key sequence of the descending and ascending arrangement, the "
+                "champion key, FindChampion position, sum / count / maximum; each list is built from real objects, Less is "
+                "evaluated on every ordered pair, three sorts are run on fresh copies and findChampion / FindChampion / "
+                "ComputeMaxAndAvgFitness / RecentEpochEvalTime / MostRecentTrialEvalTime are compared; non-trivial = list "
+                "with a tie on the first key component that the second component (or nothing) has to break")
+    ctx.assumptions = ["finite integer fitness (no NaN); negative fitness only as coded (see note: observations)",
+                       "species handed to byOrganismOrigFitness / findChampion have at least one organism"]
+    _run(ctx, replay, "MC_Orders", ["MC_Orders_thorough.cfg" if thorough else "MC_Orders.cfg", "MC_Orders_negative.cfg"],
+         "replay-orders", "orders_cases.ndjson", "orders")
+
+
+# ------------------------------------------------------------------------------------------------ X04
+@pipeline("X04")
+def x04(ctx, replay):
+    thorough = ctx.tier == "thorough"
+    ctx.rule = ("MC_PopStats (+ MC_PopStats_nochamp): every population (species lists with organism keys, solved flag), "
+                "trial (generations with solved flag, champion key, duration, species age) and experiment in scope with "
+                "the values the definitions assign; each is built from real organisms / species / generations and "
+                "FillPopulationStatistics, Generation.Average / ChampionComplexity, the duration averages, BestOrganism "
+                "(both modes, trial and experiment), the champion accessors, WinnerStatistics (twice, and with a "
+                "remembered winner) and EfficiencyScore are compared; non-trivial = population whose champion is not in "
+                "the first species or whose best fitness is tied between species, trial whose best solver differs from "
+                "its best champion, experiment with both solved and unsolved trials among several")
+    ctx.assumptions = ["integer fitness above -9.2e18, every species has at least one organism",
+                       "generations without a champion only as observations (BestOrganism / EfficiencyScore panic there)",
+                       "EfficiencyScore: final float formula composed by the replayer, 1e-9 relative tolerance"]
+    _run(ctx, replay, "MC_PopStats", ["MC_PopStats_thorough.cfg" if thorough else "MC_PopStats.cfg", "MC_PopStats_nochamp.cfg"],
+         "replay-popstats", "popstats_cases.ndjson", "popstats", timeout=2400)
